@@ -7,7 +7,7 @@ package centrifuge
 // One scenario per op line:
 //   scn t=sse|hs-json|hs-proto m=post|get dc=<code> dr=<reasonhex> s=<step>,<step>,…
 // steps: cd:<hex> connect reply data · sd:<hex> subscribe reply data · rpc:<hex> RPC reply data ·
-//        pub:<hex> Node.Publish · pubi:<hex> Node.Publish with ClientInfo carrying the payload as
+//        ping:- server ping (Client.sendPing: empty Reply, zero bytes in Protobuf) · pub:<hex> Node.Publish · pubi:<hex> Node.Publish with ClientInfo carrying the payload as
 //        ConnInfo/ChanInfo · send:<hex> Client.Send · (all hex, "-" = empty)
 // A real Node is run behind the real SSEHandler / HTTPStreamHandler on an httptest server; the
 // initial request carries connect + subscribe + the RPC commands; publications and sends follow once
@@ -182,7 +182,7 @@ func (env *verifC32Env) run(line string) string {
 			subData = s.data
 		case "rpc":
 			rpcs = append(rpcs, s.data)
-		case "pub", "pubi", "send":
+		case "pub", "pubi", "send", "ping":
 		default:
 			return "bad-op"
 		}
@@ -292,6 +292,10 @@ func (env *verifC32Env) run(line string) string {
 			if _, err := node.Publish("ch", s.data, WithClientInfo(&ClientInfo{ClientID: "c", UserID: "u", ConnInfo: s.data, ChanInfo: s.data})); err != nil {
 				return "HARNESS-ERROR publish: " + err.Error()
 			}
+			expected++
+		case "ping":
+			// what the ping timer does: a server ping is `{}` in JSON and a ZERO-LENGTH message in Protobuf
+			client.sendPing()
 			expected++
 		case "send":
 			if err := client.Send(s.data); err != nil {
